@@ -275,9 +275,6 @@ example : ∃ (st : ClientSt) (m : Message), (5 : Nat) < m.toVec.length ∧ st.p
 
 /-! ### composition with C03 (dispatch): the guard preserves "exactly one response per request" -/
 
-/-- What the peer can tell a frame is about: the id in the header it parses. -/
-def wireId (bs : Bytes) : Nat := (Header.parse bs).id
-
 /-- Any well-formed response with a clear notify byte comes out of `frame_outbound` as exactly one
 frame that the peer parses to the **same id** — the original frame or its replacement. -/
 theorem guard_keeps_id (hn : m.header.notify = 0) (wf : m.WF)
